@@ -1292,9 +1292,10 @@ class CodeGenerator(NodeVisitor):
         self.enter_frame(loop_frame)
 
         self.writeline("_loop_vars = {}")
-        self.blockvisit(node.body, loop_frame)
         if node.else_:
+            # Set at the start so that break and continue can't skip it.
             self.writeline(f"{iteration_indicator} = 0")
+        self.blockvisit(node.body, loop_frame)
         self.outdent()
         if filter_gen is not None:
             self.outdent()
